@@ -233,8 +233,11 @@ func evalC16(c *Ctx, cs *Case) {
 			if massive && r.Chance(1, 2) {
 				continue
 			}
-			for _, viaFile := range []bool{false, true} {
-				if viaFile != (r.Intn(2) == 0) && format != "" {
+			for via := 0; via < 3; via++ {
+				// the document comes from stdin, from a regular file, or from --file naming
+				// something that is neither a regular file nor a directory (/dev/stdin fed by a pipe)
+				viaFile := via == 1
+				if format != "" && via != r.Intn(3) {
 					continue
 				}
 				var opts []gtree.Option
@@ -256,6 +259,10 @@ func evalC16(c *Ctx, cs *Case) {
 				var stdin []byte
 				if viaFile {
 					args = append(args, "--file", docFile)
+				} else if via == 2 {
+					args = append(args, "--file", "/dev/stdin")
+					stdin = doc
+					c.Count("file_flag_names_a_pipe", 1)
 				} else {
 					stdin = doc
 				}
@@ -283,10 +290,13 @@ func evalC16(c *Ctx, cs *Case) {
 		lib := OutputMD(string(doc))
 		if lib.Err == nil && len(lib.Out) > 0 {
 			for _, mode := range []string{"devfull", "closed"} {
-				for _, format := range []string{"", "json"} {
+				for fi, format := range []string{"", "json", "", "yaml"} {
 					args := []string{"output"}
 					if format != "" {
 						args = append(args, "--format", format)
+					}
+					if fi >= 2 {
+						args = append(args, "--massive") // the massive route has its own way to stdout
 					}
 					res := runCLI(c, j.Target, doc, mode, args...)
 					// /dev/full: every write fails, so the command must fail. A CLOSED stdout cannot
@@ -336,14 +346,18 @@ func evalC16(c *Ctx, cs *Case) {
 			// the document comes from stdin or, for half of the runs, from --file
 			mstdin := doc
 			viaFile := r.Intn(2) == 0
+			viaPipeFile := !viaFile && r.Intn(3) == 0
 			if viaFile {
 				args = append(args, "--file", docFile)
 				mstdin = nil
+			} else if viaPipeFile {
+				args = append(args, "--file", "/dev/stdin")
+				c.Count("file_flag_names_a_pipe", 1)
 			}
 			before := jc.Snap()
 			res := runCLI(c, cwd, mstdin, "", args...)
 			after := jc.Snap()
-			if viaFile {
+			if viaFile || viaPipeFile {
 				args = args[:len(args)-2]
 			}
 			// library: the CLI's dry-run is Output + WithDryRun on color.Output; the real run is MkdirFromMarkdown
@@ -391,9 +405,13 @@ func evalC16(c *Ctx, cs *Case) {
 					}
 					vlib := verifyCall(verifyRoutes[0], string(doc), nil, fsOpts(jc.Target, nil, false, false, false, strict))
 					vstdin := doc
-					if r.Intn(2) == 0 {
+					switch r.Intn(3) {
+					case 0:
 						vargs = append([]string{vargs[0], "-f", docFile}, vargs[1:]...)
 						vstdin = nil
+					case 1:
+						vargs = append([]string{vargs[0], "-f", "/dev/stdin"}, vargs[1:]...)
+						c.Count("file_flag_names_a_pipe", 1)
 					}
 					vres := runCLI(c, vcwd, vstdin, "", vargs...)
 					vlabel := strings.Join(vargs[:len(vargs)-map[bool]int{true: 1, false: 0}[withTarget]], " ")
